@@ -2282,3 +2282,8 @@ impl Default for ArchiveBuilder {
         Self::new()
     }
 }
+
+// verification hook (guard: cfg(kani), set only by `cargo kani`): harness module supplied by /verif
+#[cfg(kani)]
+#[path = "verif_kani_builder.rs"]
+mod verif_kani;
